@@ -322,8 +322,14 @@ def decomposition_costs(arcs, fl):
     for key, f in fl.items():
         if f == 0:
             continue
+        grp = groups.get(key, [])
+        if len(grp) == 1:  # no parallel arcs on this pair: nothing to split (also keeps huge capacities cheap)
+            if f > grp[0][0]:
+                return set()
+            total = {a + f * grp[0][1] for a in total}
+            continue
         opts = {0: {0}}  # amount placed so far -> achievable costs
-        for c, w in groups.get(key, []):
+        for c, w in grp:
             nxt = {}
             for amt, costs in opts.items():
                 for x in range(0, min(c, f - amt) + 1):
